@@ -166,6 +166,9 @@ impl Cl {
             }
             match sess.recv(left).await {
                 Recv::Msg(m) => {
+                    if std::env::var("VERIF_DEBUG").is_ok() {
+                        eprintln!("c07w: client {} waiting for {tid} got {m}", self.cid);
+                    }
                     if is_answer(&m, tid) {
                         return Ok(m);
                     }
@@ -373,6 +376,10 @@ impl Run {
         if expect == "pending" {
             let tid = cl.send(kind, body, &self.names).await?;
             cl.pending.entry(lock_key).or_default().push(tid);
+            // requests of different sessions are not ordered among each other: before the next request
+            // (possibly of another session) is sent, this one must have been processed - the answer to a
+            // later request of the same session proves it
+            cl.request("get", json!({"key": "c07w/ping"}), &self.names).await?;
         } else {
             let m = cl.request(kind, body, &self.names).await?;
             if ok_kind(&m) != expect {
